@@ -198,7 +198,55 @@ def run_stack_harness(binary, depth):
     return viols, {k: int(v) for k, v in (kv.split("=") for kv in summ[0].split()[1:])}
 
 
+# ---------------------------------------------------------------- search words over all small haystacks and needles
+def find_cases(hmax, nmax):
+    """(kind, haystack, needle) for every haystack of up to hmax and needle of up to nmax elements over a two-letter alphabet
+    (self-overlapping needles, repetitions before the real occurrence, needles longer than the haystack, empty operands)."""
+    for kind, al in (("seq", (1, 2)), ("str", (0x61, 0x62))):
+        for hl in range(hmax + 1):
+            for h in itertools.product(al, repeat=hl):
+                for nl in range(nmax + 1):
+                    for n in itertools.product(al, repeat=nl):
+                        yield kind, h, n
+
+
+def _find_lit(kind, xs):
+    return ("[" + ", ".join(map(str, xs)) + "]") if kind == "seq" else ('"' + "".join(chr(c) for c in xs) + '"')
+
+
+def _find_worker(d, chunk, extra):
+    out = {"n": 0, "bad": []}
+    words = ["?find", "!find", "?starts", "!starts", "?ends", "!ends"]
+    cmds = []
+    for kind, h, n in chunk:
+        for w in words:
+            cmds.append(drv.run_cmd("%s %s %s" % (_find_lit(kind, h), _find_lit(kind, n), w), lim=3))
+    rs = d.batch(cmds)
+    for i, (kind, h, n) in enumerate(chunk):
+        found = any(h[k:k + len(n)] == n for k in range(len(h) - len(n) + 1))
+        starts = h[:len(n)] == n
+        ends = len(n) <= len(h) and h[len(h) - len(n):] == n
+        exp = [found, not found, starts, not starts, ends, not ends]
+        for w, e, r in zip(words, exp, rs[6 * i:6 * i + 6]):
+            out["n"] += 1
+            got = len(r.results())
+            if r.crash or r.stderr or got != (1 if e else 0) or len(r.lines) != got:
+                out["bad"].append(("find:%s|%s|%s|%s" % (kind, h, n, w), "`%s %s %s` yields %r%s, the list model says it %s" % (
+                    _find_lit(kind, h), _find_lit(kind, n), w, r.lines[:2], " with diagnostics %r" % r.stderr[:80] if r.stderr else "",
+                    "holds" if e else "does not hold"), {"find": [kind, list(h), list(n)], "kind": "find"}))
+    out["bad"] = out["bad"][:10]
+    return out
+
+
 def replay(case):
+    if "find" in case:
+        ctx = common.Ctx("C11", "quick")
+        d = drv.Drv(ctx.bin("zwdrv"), "core")
+        try:
+            k, h, n = case["find"]
+            return bool(_find_worker(d, [(k, tuple(h), tuple(n))], None)["bad"])
+        finally:
+            d.close()
     ctx = common.Ctx("C11", "quick")
     if case.get("part") == "stack":
         viols, _ = run_stack_harness(ctx.bin("stack_harness"), case["depth"])
@@ -234,6 +282,12 @@ def main(ctx):
             outcomes[k] = outcomes.get(k, 0) + v
         for key, what, case in r["bad"]:
             ctx.violation(key, what, case)
+    fb = (6, 4) if ctx.tier == "thorough" else (5, 3)
+    for r in common.pmap(ctx, _find_worker, common.chunks(find_cases(*fb), 60), bins["zwdrv"], "core", timeout=60):
+        ctx.count("search_word_cases", r["n"])
+        ctx.count("programs", r["n"])
+        for key, what, case in r["bad"]:
+            ctx.violation(key, what, case)
     ctx.sample({"program": '7 "f" [7] {2} "ab" "a\\x00b" 7 drop ?starts', "expect": "unchanged stack or nothing per the bytes model"})
     n = ctx.counts.get("programs", 0)
     cov = {
@@ -246,7 +300,8 @@ def main(ctx):
         "rule": "stack part: state = sequence of slot types reachable by push/pop/drop/copy up to the depth bound (BFS, all transitions checked); "
                 "word part: state = (word, operand tuple, history template, filler kind) program run to exhaustion; distinct = distinct program",
         "bounds": {"stack_depth": depth, "pool": [n_ for n_, _ in pool(ctx.tier)], "unary_words": UNARY_WORDS, "binary_words": BINARY_WORDS,
-                   "histories_per_arity": {a: len(histories(a, ctx.tier)) for a in (1, 2, 3)}},
+                   "histories_per_arity": {a: len(histories(a, ctx.tier)) for a in (1, 2, 3)},
+                   "search_words": "?find / ?starts / ?ends and negations on every haystack of <= %d and needle of <= %d elements over two letters, sequences and strings" % fb},
     }
     return ctx.finish("model_checking", cov, [
         "lib/zwmodel.py word semantics follow the word docstrings; ?match is POSIX ERE search on the NUL-terminated prefix (libc regexec), "
